@@ -32,6 +32,8 @@ Definition emitted_imports_exist : bool := table_sub trampoline_emits provider_e
 Definition trampoline_guards : bool :=
   subset ["shopify_function_input_read_utf8_str"; "shopify_function_input_get_obj_prop"; "shopify_function_output_new_utf8_str";
           "shopify_function_intern_utf8_str"; "shopify_function_log_new_utf8_str"] trampoline_rejects_wrong_sig
+  && subset ["shopify_function_input_read_utf8_str"; "shopify_function_input_get_obj_prop"; "shopify_function_output_new_utf8_str";
+          "shopify_function_intern_utf8_str"; "shopify_function_log_new_utf8_str"] trampoline_rejects_wrong_sig_dup
   && trampoline_rejects_unknown && trampoline_rejects_empty_name && trampoline_rejects_other_version && trampoline_rejects_two_memories
   && subset trampoline_accepts_lowlevel (names provider_exports).
 
